@@ -254,6 +254,13 @@ harness! {
         step_union_ab::<4, 2>(2, 1, Some(ma), Some(0b10111));
     }
 }
+// the same `other`, received by the EMPTY filter (one concrete pair: cheap enough for the quick tier)
+harness! {
+    #[kani::unwind(12)]
+    fn c06_qf_union_b2r1_two_pending_runs_into_empty() {
+        step_union_ab::<4, 2>(2, 1, Some(0), Some(0b10111));
+    }
+}
 // larger configurations (thorough): receiving set symbolic
 qf_union_harness!(c06_qf_union_b1r2, 2, 4, 1, 2, None, 6);
 qf_union_harness!(c06_qf_union_b2r1, 4, 2, 2, 1, None, 12);
